@@ -88,7 +88,7 @@ def main(tier, seed, replay=None):
         for (M, P) in combos if tier != "quick" else combos[: 2 + dof % 2]:
             k += 1
             sc = "f32" if k % 5 == 0 else "f64"
-            cases.append(statsrun.gen_stats_case(rng, M, P, M + P + dof, scalar=sc, weights=["none", "pos"][k % 2], noise=0.1,
+            cases.append(statsrun.gen_stats_case(rng, M, P, M + P + dof, scalar=sc, weights=["none", "pos", "zeros"][k % 3] if dof > 2 else ["none", "pos"][k % 2], noise=0.1,
                                                  quant=(8 if k % 3 else None), probs=PROBS + BAD))
     results, idx, hist, nerr = c13.run_stats_values(run, "C14", cases, binp, (20, 29, 30, 31), "confidence band")
     # many degrees of freedom (the quantile must still be Student's t with exactly N-M-P degrees of freedom): band relation only
